@@ -157,8 +157,12 @@ def list_comp(I, st, node):
         I.set_list(st, o, ln, I.list_items(st, o))
         st.set_views[o.term.get_id()] = dom
         return o
-    # general element over a keyed source: an unordered bag; only supported as a set-like list of element values
     ev = vals[0]
+    if isinstance(node, ast.GeneratorExp):
+        # consumed by min()/max()/sum(): keep the image symbolic
+        dom_ = st.deflam([k], z3.And(z3.Select(D, k), *conds)) if conds else D
+        return Val("View", ("image",), extra=("keyed_image", dom_, k, ev.term, strip_opt(ev.ty), kt))
+    # general element over a keyed source: an unordered bag; only supported as a set-like list of element values
     et = strip_opt(ev.ty)
     cls = "List[%s]" % ty_str(et)
     REG.parse(cls)
@@ -245,6 +249,22 @@ def to_list(I, st, v, node):
 
 
 def min_max_iter(I, st, name, v, node):
+    """min/max over a generator expression / map() over a keyed source: a fresh value that bounds every element and is
+    attained (assumed builtin contract); ValueError on an empty source"""
+    if v.extra and v.extra[0] == "keyed_image":
+        _, dom, k, term, ty, kt = v.extra
+        ks = k.sort()
+        if st.spec_depth == 0 and not st.decide(dom != z3.K(ks, FALSE)):
+            I.raise_(st, "ValueError", node)
+        w = st.fresh(ks, "arg" + name)
+        r = z3.substitute(term, (k, w))
+        st.assume(z3.Select(dom, w))
+        st.assume_type_inv(Val(kt, w))
+        if name == "max":
+            st.assume(z3.ForAll([k], z3.Implies(z3.Select(dom, k), term <= r)))
+        else:
+            st.assume(z3.ForAll([k], z3.Implies(z3.Select(dom, k), r <= term)))
+        return Val(ty, r)
     raise Unsupported("%s over an iterable (line %s)" % (name, getattr(node, "lineno", "?")))
 
 
